@@ -31,11 +31,18 @@ def plan(tier):
     p.append((S.T1(params={"test_timeout": 1}, D=(1.0, 9.0, 6.0)).variant("/timeout=10p,D<=9p"), 2 if q else 3, 2))
     p.append((S.T2(params={"test_timeout": 1}, D=(1.0, 9.0, 6.0)).variant("/timeout=10p,D<=9p"), 2, 2))
     p.append((S.G1(D=DL), 0 if q else 1, 3))
+    # COMPLETE enumeration (no deviation bound): every duration / outcome / tie-order sequence of small graphs
+    p.append((S.T1(shared=S.VM1_CHAIN[:2]).variant("/shared=install+customize,ALL-SCHEDULES"), 99, 0.5))
+    p.append((S.T1("net1 net2 net3", shared=S.VM1_CHAIN[:2]).variant("/shared=install+customize,ALL-SCHEDULES"), 99, 0.5))
+    p.append((S.T1(shared=S.VM1_CHAIN[:1]).variant("/shared=install,ALL-SCHEDULES"), 99, 1))
+    p.append((S.T2(shared=S.VM1_CHAIN[:2]).variant("/shared=install+customize,ALL-SCHEDULES"), 99, 1))
+    if not q:
+        p.append((S.T2(shared=S.VM1_CHAIN[:1]).variant("/shared=install,ALL-SCHEDULES"), 99, 4))
     return p
 
 
 def run(tier, seed):
-    return checkbase.run_e1("C04", tier, seed, TECH, (lambda: plan(tier)), monitors.c04, 200, 1500,
+    return checkbase.run_e1("C04", tier, seed, TECH, (lambda: plan(tier)), monitors.c04, 420, 2400,
                             "executions = complete runs of the real traversal, one per choice sequence (durations incl. 3 and 5 back-off periods, outcomes, "
                             "tie order) with at most k non-default choices; distinct = distinct (scenario, (worker,test,status) sequence)",
                             ["a test is modelled by the world; durations stay within the timeout budget (the over-run branch is explored separately in thorough)",
